@@ -5,6 +5,7 @@ import (
 	"runtime"
 	"strings"
 	"sync"
+	"sync/atomic"
 
 	"github.com/fluffle/goirc/logging"
 )
@@ -29,6 +30,15 @@ type CapLogger struct {
 	OnRec   func(r *LogRecord)      // called synchronously on the library's goroutine, outside the logger's lock
 	Discard func(r *LogRecord) bool // if set and returns true, the record is not kept (still passed to OnRec)
 	changed chan struct{}
+	hook    atomic.Value // func(*LogRecord): like OnRec, but may be replaced while library goroutines are logging
+}
+
+// SetHook installs (or, with nil, removes) a record hook atomically.
+func (l *CapLogger) SetHook(f func(r *LogRecord)) {
+	if f == nil {
+		f = func(*LogRecord) {}
+	}
+	l.hook.Store(f)
 }
 
 // NewCapLogger creates a capturing logger and installs it.
@@ -57,7 +67,9 @@ func (l *CapLogger) add(level, f string, a []interface{}) {
 		l.changed = make(chan struct{})
 		l.mu.Unlock()
 	}
-	if l.OnRec != nil {
+	if f, _ := l.hook.Load().(func(r *LogRecord)); f != nil {
+		f(&r)
+	} else if l.OnRec != nil {
 		l.OnRec(&r)
 	}
 }
